@@ -242,11 +242,36 @@ def range_info(lp):
     """(elem term, Lin in n, number of iterations) for a for-loop over a
     constant range, else None"""
     it = lp.ctx
-    if not (it[0] == 'op' and it[1] == 'range' and all(
-            is_const(x) and isinstance(x[1], int) for x in it[2])):
+
+    def cint(t):
+        """integer value of a term built from constants, or None"""
+        if is_const(t):
+            return t[1] if isinstance(t[1], int) and not isinstance(
+                t[1], bool) else None
+        if t[0] == 'op' and t[1] in ('+', '-', '*') and len(t[2]) == 2:
+            a, b = cint(t[2][0]), cint(t[2][1])
+            if a is None or b is None:
+                return None
+            return a + b if t[1] == '+' else a - b if t[1] == '-' else a * b
         return None
-    args = [x[1] for x in it[2]]
-    r = range(*args)
+    unbounded = False
+    if it[0] == 'op' and it[1] == 'range':
+        args = [cint(x) for x in it[2]]
+        if not args or None in args:
+            return None
+        r = range(*args)
+    elif it[0] == 'call' and it[1] == ('ext', 'itertools.count') and \
+            len(it[2]) <= 2 and not it[3]:
+        # for i in itertools.count(a, s): i = a + s * n, no end of its own
+        args = [cint(x) for x in it[2]]
+        if None in args:
+            return None
+        start = args[0] if args else 0
+        step = args[1] if len(args) > 1 else 1
+        r = range(start, start + step, step)     # start / step carrier
+        unbounded = True
+    else:
+        return None
     el = None
     for q in lp.paths:
         for t in (x for a, _, _ in q.conds for x in subterms(a)):
@@ -258,7 +283,8 @@ def range_info(lp):
                     el = t
     start = r.start
     step = r.step
-    return el, Lin(const=start) + Lin.sym('n').scale(step), len(r)
+    return el, Lin(const=start) + Lin.sym('n').scale(step), \
+        (None if unbounded else len(r))
 
 
 def bit_test(a, pol):
@@ -388,7 +414,7 @@ def check_read(report, db, S, vi, vl, rd, ref, consts):
                     m = -k
                     u = (c - 1) // m if strict else c // m
                     bound = u if bound is None else min(bound, u)
-        if ri is not None:
+        if ri is not None and ri[2] is not None:
             reads_max = ri[2]
         elif bound is not None:
             reads_max = bound + 2
@@ -705,9 +731,8 @@ def check_constants(report, db, F, S, basic, rd, sd, sz, ref, consts):
     if consts.get('read_cont') != cont:
         probs.append((rd, 'read tests continuation bit %r, not 0x%02X'
                       % (consts.get('read_cont'), cont)))
-    if consts.get('counter_init') != 0:
-        probs.append((rd, 'group counter starts at %r, not 0'
-                      % consts.get('counter_init')))
+    # (where the counter starts does not matter: R03.3 checks that group i is
+    # shifted by exactly bits * i, the first group by 0)
     if consts.get('send_mask') != mask:
         probs.append((sd, 'send masks each group with %r, not 0x%02X'
                       % (consts.get('send_mask'), mask)))
